@@ -356,6 +356,10 @@ def run_reprint_batches(ctx, v, batches, listed_quirks):
             continue
         lines2.append({"op": "query", "id": l["id"], "text": rp, "optimize": l["optimize"]})
     impl2 = common.run_impl(ctx["binary"], lines2, scratch)
+    # third pass: what was parsed with the optimiser is printed for readers that do not have one (a monitoring core takes
+    # `~` as a regular expression): the text must select the same rows when it is read without the optimiser
+    lines3 = [l if l.get("op") == "dataset" else dict(l, optimize=False) for l in lines2 if l.get("op") == "dataset" or l.get("optimize")]
+    impl3 = common.run_impl(ctx["binary"], lines3, scratch) if any(l.get("op") != "dataset" for l in lines3) else {}
     for cid, case in cases.items():
         m = model.get(cid)
         r1 = impl1.get(cid) or {}
@@ -372,6 +376,10 @@ def run_reprint_batches(ctx, v, batches, listed_quirks):
         before = len(v.violations) + len(v.corr_broken)
         evaluate_case(v, case2, impl2.get(cid), m, listed_quirks)
         v.bump("reprint_checked")
+        if case.get("optimize") and cid in impl3 and len(v.violations) + len(v.corr_broken) == before:
+            case3 = dict(case2, optimize=False, text=rp, extra=dict(case2["extra"], reread="the printed text is read without the optimiser"))
+            evaluate_case(v, case3, impl3.get(cid), m, listed_quirks)
+            v.bump("reprint_read_plain")
         mp = m.get("reprint")
         if mp is not None and mp != rp and len(v.violations) + len(v.corr_broken) == before:
             v.corr_broken.append((case2, "Request.String differs: impl %r model %r" % (rp, mp)))
